@@ -28,7 +28,7 @@ def load_contracts(mod_names):
 
 
 def native_replay(contract_module, c, clause, inputs):
-    rec = {'contract_module': contract_module, 'module': c.module, 'qualname': c.qualname,
+    rec = {'contract_module': contract_module, 'module': c.module, 'qualname': c.qualname, 'name': c.name,
            'clause': clause, 'inputs': inputs}
     with tempfile.NamedTemporaryFile('w', suffix='.json', delete=False, dir=tempfile.gettempdir()) as f:
         json.dump(rec, f)
@@ -131,7 +131,7 @@ def crosscheck(world, contracts, cms, limit=None):
         samples = getattr(cm, 'SAMPLES', {})
         recipes = getattr(cm, 'RECIPES', {})
         for c in cm.CONTRACTS:
-            for s in samples.get(c.qualname, [])[:limit]:
+            for s in (samples.get(c.name, []) if c.name == c.qualname else [])[:limit]:
                 n += 1
                 try:
                     nat_args = {k: runtime.from_json(copy.deepcopy(v), recipes) for k, v in s.items()}
@@ -172,11 +172,11 @@ def run_proof_tier(prop, contract_modules, source_modules, classify=None):
     t0 = time.time()
     cms, contracts, uses = load_contracts(contract_modules)
     world = driver.build_world(contract_modules, source_modules)
-    by_q = {c.qualname: c for c in contracts}
+    by_q = {c.name: c for c in contracts}
     cm_of = {}
     for cm in cms:
         for c in cm.CONTRACTS:
-            cm_of[c.qualname] = cm.__name__
+            cm_of[c.name] = cm.__name__
 
     results = driver.run_contracts(world, contracts, uses, mode='modular')
     obs, funcs = driver.aggregate(contracts, results)
@@ -194,8 +194,8 @@ def run_proof_tier(prop, contract_modules, source_modules, classify=None):
     inlined = {}
     timing = {'modular_s': round(time.time() - t0, 2)}
     if failed_helpers or bad_sites:
-        redo = [c.qualname for c in contracts
-                if set(uses.get(c.qualname, [])) & set(failed_helpers) or c.qualname in bad_sites]
+        redo = [c.name for c in contracts
+                if set(uses.get(c.name, [])) & set(failed_helpers) or c.name in bad_sites]
         uses2 = {k: [x for x in v if x not in failed_helpers and x not in bad_sites.get(k, ())]
                  for k, v in uses.items()}
         failed_helpers = sorted(set(failed_helpers) | {x for v in bad_sites.values() for x in v})
@@ -237,7 +237,7 @@ def run_proof_tier(prop, contract_modules, source_modules, classify=None):
                         f"{nat.get('outcome')}; clause '{o['clause']}' fails on the real code")
                 violations.append(Violation(prop, oid, key, text, {
                     'kind': 'proof-counterexample', 'contract_module': cm_of[o['function']],
-                    'module': c.module, 'qualname': c.qualname, 'clause': o['clause'],
+                    'module': c.module, 'qualname': c.qualname, 'name': c.name, 'clause': o['clause'],
                     'inputs': confirmed['inputs'], 'native_result': nat,
                     'solver': {'backends': o['backends'], 'witness_info': confirmed['info']}}, True))
             else:
@@ -314,12 +314,13 @@ def run_proof_tier(prop, contract_modules, source_modules, classify=None):
     functions = []
     for c in contracts:
         d = world.sources[c.module].describe(c.qualname)
-        fr = funcs.get(c.qualname, {})
+        fr = funcs.get(c.name, {})
+        d['contract'] = c.name
         d.update({'kind': c.kind, 'level': c.level, 'paths': fr.get('paths'), 'kind_combinations': fr.get('combos'),
                   'returns': fr.get('returns'), 'raises': fr.get('raises'),
                   'loops': {f"loop{k}": f"unwinding {n} with unwinding assertion" for k, n in c.unwind.items()},
-                  'callees_by_contract': [x for x in uses.get(c.qualname, []) if x not in inlined.get(c.qualname, [])],
-                  'callees_inlined_after_contract_failure': inlined.get(c.qualname, []),
+                  'callees_by_contract': [x for x in uses.get(c.name, []) if x not in inlined.get(c.name, [])],
+                  'callees_inlined_after_contract_failure': inlined.get(c.name, []),
                   'paths_cut_outside_model': fr.get('cut'), 'note': c.note})
         functions.append(d)
     assumed = []
@@ -347,7 +348,8 @@ def _canary_task(i):
     os.environ['PYVC_SERIAL'] = '1'
     try:
         uses_c = {k: [x for x in v if x not in cn.get('inline', [])] for k, v in uses.items()}
-        r = driver.run_contracts(world, contracts, uses_c, only=[cn.get('verify', cn['function'])])
+        r = driver.run_contracts(world, contracts, uses_c, only=[cn.get('verify', cn['function'])],
+                                 combo_filter=cn.get('combos'))
         o2, _ = driver.aggregate(contracts, r)
         return o2.get(cn['expect'], {}).get('status')
     except Exception as e:      # noqa
